@@ -41,7 +41,8 @@ pub fn total_html<S: TreeSink>(sink: S, chunks: &[String], opts: &HtmlOpts, fini
         None => (TreeBuilder::new(sink, opts.tb_opts()), None),
         Some((ns, local, attrs)) => {
             let ctx = html5ever::tree_builder::create_element(&sink, qual(ns, local), attr_list(attrs));
-            let tb = TreeBuilder::new_for_fragment(sink, ctx, None, opts.tb_opts());
+            let form = crate::drive::fragment_form_handle(&sink, opts, &ctx);
+            let tb = TreeBuilder::new_for_fragment(sink, ctx, form, opts.tb_opts());
             let st = tb.tokenizer_state_for_context_elem(opts.context_allows_scripting);
             (tb, Some(st))
         },
